@@ -7,7 +7,7 @@ import (
 	"bufio"
 	"encoding/json"
 	"fmt"
-	plugin "github.com/hashicorp/go-plugin"
+	"net"
 	"os"
 	"os/exec"
 	"runtime"
@@ -17,6 +17,8 @@ import (
 	"testing"
 	"time"
 
+	hclog "github.com/hashicorp/go-hclog"
+	plugin "github.com/hashicorp/go-plugin"
 	"github.com/hashicorp/go-plugin/verifharness/vp"
 )
 
@@ -116,15 +118,59 @@ func runVersionCase(c verCase, bin string) map[string]interface{} {
 		case line = <-lineCh:
 		case <-time.After(10 * time.Second):
 		}
-		cmd.Process.Kill()
-		cmd.Wait()
+		defer func() {
+			cmd.Process.Kill()
+			cmd.Wait()
+		}()
 		parts := strings.Split(strings.TrimSpace(line), "|")
 		out["line"] = line
+		out["plugin_tag"] = -1
 		if len(parts) >= 5 {
 			v, err := strconv.Atoi(parts[1])
 			out["served"] = err == nil
 			out["line_version"] = v
 			out["line_proto"] = parts[4]
+			// which plugin set does it actually serve? a host attaches to the announced address and asks
+			var addr net.Addr
+			if parts[2] == "unix" {
+				addr, _ = net.ResolveUnixAddr("unix", parts[3])
+			} else {
+				addr, _ = net.ResolveTCPAddr("tcp", parts[3])
+			}
+			if addr != nil && (parts[4] == "grpc" || parts[4] == "netrpc") {
+				rc := plugin.NewClient(&plugin.ClientConfig{
+					HandshakeConfig: plugin.HandshakeConfig{MagicCookieKey: vp.CookieKey, MagicCookieValue: vp.CookieValue},
+					Plugins:         vp.Set("grpc", "host"), Logger: hclog.NewNullLogger(),
+					Reattach:        &plugin.ReattachConfig{Protocol: plugin.Protocol(parts[4]), ProtocolVersion: v, Addr: addr, Pid: cmd.Process.Pid},
+					AllowedProtocols: []plugin.Protocol{plugin.ProtocolNetRPC, plugin.ProtocolGRPC}})
+				func() {
+					// (the plugin is our child: reap it first, a zombie still counts as running for the reattached client)
+					defer func() { cmd.Process.Kill(); cmd.Wait(); rc.Kill() }()
+					defer func() {
+						if r := recover(); r != nil {
+							out["attach_err"] = fmt.Sprint("panic: ", r)
+						}
+					}()
+					cp, err := rc.Client()
+					if err != nil {
+						out["attach_err"] = err.Error()
+						return
+					}
+					raw, err := cp.Dispense("v")
+					if err != nil {
+						out["attach_err"] = "dispense: " + err.Error()
+						return
+					}
+					r, err := raw.(*vp.Stub).Do(vp.Cmd{Op: "tag"})
+					if err != nil {
+						out["attach_err"] = "tag: " + err.Error()
+						return
+					}
+					if pt, err := strconv.Atoi(r.S); err == nil {
+						out["plugin_tag"] = pt
+					}
+				}()
+			}
 		} else {
 			out["served"] = false
 			out["line_version"] = -1
